@@ -208,6 +208,14 @@ class KernelAssertion(AssertionError):
     pass
 
 
+class BreakSignal(Exception):
+    pass
+
+
+class ContinueSignal(Exception):
+    pass
+
+
 class Interp:
     def __init__(self, module_globals=None, abstract=False):
         self.g = dict(module_globals or {})
@@ -615,6 +623,12 @@ class Interp:
     def ex_PassStatNode(self, node, env):
         pass
 
+    def ex_BreakStatNode(self, node, env):
+        raise BreakSignal()
+
+    def ex_ContinueStatNode(self, node, env):
+        raise ContinueSignal()
+
     ex_CVarDefNode = ex_PassStatNode
     ex_CImportStatNode = ex_PassStatNode
 
@@ -774,7 +788,12 @@ class Interp:
                 pass
             for i in range(int(lo), int(hi)):
                 self.assign(target, i, env, node)
-                self.ex(body, env)
+                try:
+                    self.ex(body, env)
+                except ContinueSignal:
+                    continue
+                except BreakSignal:
+                    break
             return
         # abstract iteration ------------------------------------------------------------------
         self.stats['loops_abstracted'] += 1
